@@ -141,7 +141,10 @@ def jsonable(v):
 
 # ----------------------------------------------------------------------------- solving
 
-def solve(pc, goal, timeout_ms, want_model=True, light=False):
+RECHECK = {'agree': 0, 'undecided': 0, 'disagree': 0}      # thorough tier: cvc5 re-discharge of what z3 proved
+
+
+def solve(pc, goal, timeout_ms, want_model=True, light=False, recheck=False):
     """Check validity of pc => goal.  -> (verdict, model|None, backend, seconds)
     verdict: 'unsat' (discharged) | 'sat' (refuted) | 'unknown'."""
     t0 = time.time()
@@ -154,15 +157,30 @@ def solve(pc, goal, timeout_ms, want_model=True, light=False):
         s0.add(*qf)
         s0.add(ng)
         if s0.check() == z3.unsat:
+            if recheck:
+                v2, _ = cvc5_check(s0, 10)
+                RECHECK['agree' if v2 == 'unsat' else 'disagree' if v2 == 'sat' else 'undecided'] += 1
+                if v2 == 'sat':
+                    return 'disagree', None, 'z3 unsat / cvc5 sat', time.time() - t0
+                return 'unsat', None, 'z3+cvc5' if v2 == 'unsat' else 'z3', time.time() - t0
             return 'unsat', None, 'z3', time.time() - t0
     s = z3.Solver()
-    s.set('timeout', timeout_ms)
+    # string-heavy queries: z3's sequence solver is erratic (ms or timeout on the same query), cvc5 is steady: give z3 a
+    # short first try, cvc5 the full budget, and z3 the full budget last
+    stringy = (not light) and any('str.' in c.sexpr() for c in list(pc)[-12:] + [ng])
+    s.set('timeout', min(4000, timeout_ms) if stringy else timeout_ms)
     for c in pc:
         s.add(c)
     s.add(ng)
     r = s.check()
     dt = time.time() - t0
     if r == z3.unsat:
+        if recheck:
+            v2, _ = cvc5_check(s, 10)
+            RECHECK['agree' if v2 == 'unsat' else 'disagree' if v2 == 'sat' else 'undecided'] += 1
+            if v2 == 'sat':
+                return 'disagree', None, 'z3 unsat / cvc5 sat', time.time() - t0
+            return 'unsat', None, 'z3+cvc5' if v2 == 'unsat' else 'z3', time.time() - t0
         return 'unsat', None, 'z3', dt
     if r == z3.sat:
         return 'sat', s.model(), 'z3', dt
@@ -170,6 +188,13 @@ def solve(pc, goal, timeout_ms, want_model=True, light=False):
         return 'unknown', None, 'z3', dt
     # unknown -> cvc5 on the SMT-LIB dump
     v, dt2 = cvc5_check(s, max(5, timeout_ms // 1000))
+    if stringy and v not in ('unsat', 'sat'):
+        s.set('timeout', timeout_ms)
+        r = s.check()
+        if r == z3.unsat:
+            return 'unsat', None, 'z3', time.time() - t0
+        if r == z3.sat:
+            return 'sat', s.model(), 'z3', time.time() - t0
     if v == 'unsat':
         return 'unsat', None, 'cvc5', dt + dt2
     if v == 'sat':
@@ -627,7 +652,10 @@ class Verifier:
                         open('/verif/.scratch/trace%d.smt2' % _TR, 'w').write(ss.to_smt2())
                 # once a candidate counter-model exists for this clause the remaining path instances get a short budget
                 v, model, be, dt = solve(ob.pc, ob.goal, self.timeout_ms if verdict != 'candidate' else 2000,
-                                         light=(verdict == 'candidate'))
+                                         light=(verdict == 'candidate'), recheck=(self.tier == 'thorough'))
+                if v == 'disagree':
+                    res['errors'].append('solver disagreement on %s (z3 unsat, cvc5 sat): not counted as discharged' % name)
+                    v = 'unknown'
                 if os.environ.get('VERIF_TRACE'):
                     print('   ->', v, be, round(dt, 2), flush=True)
                 backend.add(be)
